@@ -1891,8 +1891,8 @@ func init() {
 	core.Register(&core.Rule{
 		ID:    "R20.5",
 		Title: "the cleaner sees the target as given and removes the manifest at every level",
-		Text: "In CleanTargetDir (a) the directory parameter is never reassigned before it reaches the `!= \".\"` guards: a normalised path (filepath.Abs/Clean) is never equal to \".\" and the current directory would be removed once cleaning leaves it empty; " +
-			"(b) the recursive call for sub-directories goes through a function that removes the manifest file of the directory it is given (CleanTargetDir itself, or a closure containing that removal): " +
+		Text: "In the cleaner (CleanTargetDir and the package functions on a call cycle with it) (a) no directory parameter is reassigned before it reaches the `!= \".\"` guards: a normalised path (filepath.Abs/Clean) is never equal to \".\" and the current directory would be removed once cleaning leaves it empty; " +
+			"(b) every call that hands a directory entry (join(dir, entry.Name()), under entry.IsDir()) to a function or closure of the cleaner goes to one that removes the manifest file of the directory it is given: " +
 			"a manifest below the top level otherwise survives cleaning and keeps its directory chain alive.",
 		Props: []string{"C20"},
 		Floor: map[string]int{"v2": 2, "root": 2},
